@@ -442,3 +442,56 @@ def kernel_on_every_path(P, R, rule, f, is_kernel, what, why):
                 return True
         return False
     return returns_pass_through(P, R, rule, f, gate, what, why, allow=allow)
+
+
+def array_token(P, R, rule):
+    """(seed S10) Dask identifies a frame by the token of its columns.  The generic extension-array token is computed from the elements as python
+    objects: it distinguishes values, missing and empty elements, but not the coordinate subtype (float32 / float64 / int32 ...): two frames with equal
+    numbers and different subtypes collapse into one collection.  A normaliser registered for GeometryArray must therefore exist, include the dtype, and
+    cover the elements completely: either through the array as a whole (generic normaliser, the elements, the arrow array), or - when built from the
+    buffers - with the validity of the elements (missing vs empty have identical offsets and coordinates)."""
+    R.assume('S10: dask reuses collections whose inputs have equal tokens (dask.base.tokenize / normalize_token dispatch)')
+    ga = P.cls('spatialpandas.geometry.base.GeometryArray')
+    hs = []
+    for g_ in P.all_funcs():
+        for d_ in getattr(g_.node, 'decorator_list', []) or []:
+            if isinstance(d_, ast.Call) and 'normalize_token' in norm(d_.func) and d_.args:
+                r = P.resolve_expr_static(g_.mod, d_.args[0])
+                if r and r[0] == 'class' and (r[1] is ga or (r[1].mro and ga in r[1].mro)):
+                    hs.append((g_, r[1]))
+    covers_all = any(ci is ga for _, ci in hs)
+    R.check(covers_all, rule, ('spatialpandas/dask.py', 'normalize_token'), None, 'a dask token normaliser is registered for GeometryArray',
+            'no dask token normaliser is registered for GeometryArray: the generic extension-array token is computed from the elements as python objects and ignores the coordinate '
+            'subtype, so frames with equal numbers but different subtypes (float32 / float64 / int32) have one token and dd.from_pandas returns the first frame for both',
+            construct='GeometryArray token normaliser')
+    for g_, ci in hs:
+        if not g_.params:
+            continue
+        a = g_.params[0]
+        rets = [s_ for s_ in walk_own(g_.node) if isinstance(s_, ast.Return) and s_.value is not None]
+        exp = [astq.expand(g_, s_.value) for s_ in rets]
+        attrs = set()
+        whole = False
+        for e_ in exp:
+            for x in ast.walk(e_):
+                if isinstance(x, ast.Attribute) and isinstance(x.value, ast.Name) and x.value.id == a:
+                    attrs.add(x.attr)
+                if isinstance(x, ast.Call):
+                    for arg in list(x.args) + [k.value for k in x.keywords]:
+                        if isinstance(arg, ast.Name) and arg.id == a and norm(x.func) not in ('type', 'len', 'isinstance', 'id', 'getattr', 'hasattr', 'str', 'repr'):
+                            whole = True          # the array itself goes into the token (generic normaliser, np.asarray, list, pickle ...)
+                        if isinstance(arg, ast.Attribute) and isinstance(arg.value, ast.Name) and arg.value.id == a and arg.attr in ('data', '_data'):
+                            whole = True          # the arrow array as a whole
+                    if isinstance(x.func, ast.Attribute) and isinstance(x.func.value, ast.Attribute) and isinstance(x.func.value.value, ast.Name) and x.func.value.value.id == a \
+                            and x.func.value.attr in ('data', '_data') and x.func.attr in ('to_pylist', 'to_pandas', 'to_numpy', 'to_string', 'equals', '__reduce__'):
+                        whole = True
+                    if isinstance(x.func, ast.Attribute) and isinstance(x.func.value, ast.Name) and x.func.value.id == a and x.func.attr in ('to_numpy', 'tolist', '__reduce__', '__getstate__', 'astype'):
+                        whole = True
+        has_dtype = bool(attrs & {'dtype', 'numpy_dtype', '_dtype', '_numpy_dtype'}) or any('.data.type' in norm(e_) for e_ in exp)
+        R.check(bool(rets) and has_dtype, rule, g_, rets[0] if rets else None, f'the token of a {ci.name} includes its dtype (coordinate subtype)',
+                f'the token {g_.name} computes for a {ci.name} does not include the dtype: arrays with equal numbers and different coordinate subtypes get one token',
+                construct=f'{g_.name}: token includes the dtype')
+        complete = whole or bool(attrs & {'isna', 'isnull', '_isna'})
+        R.check(bool(rets) and complete, rule, g_, rets[0] if rets else None, f'the token of a {ci.name} covers its elements completely (whole array, or buffers together with the validity of the elements)',
+                f'the token {g_.name} computes for a {ci.name} is built from {sorted(attrs)} only: a missing element and an empty one have the same offsets and coordinates, so arrays that differ only in '
+                'missing vs empty elements get one token and dask serves the first frame for both', construct=f'{g_.name}: token covers validity')
